@@ -100,6 +100,11 @@ type Gen struct {
 	allowedTargets map[string][]frameTarget
 	lemmasUsed map[string]bool
 	declared map[string]bool
+	ghostTypes map[string]types.Type
+	localTypes map[string]types.Type // $local:<name> -> Go type
+	localAddr  map[string]*Val       // locals that live in memory: pointer to the cell
+	localObjs  map[string]types.Object
+	localAmbig map[string]bool
 }
 
 type loopInfo struct {
@@ -475,6 +480,18 @@ func (g *Gen) mergeStates(b *ssa.BasicBlock, ins []inEdge) *State {
 		res.heap[k] = n
 	}
 	for _, k := range sortedKeys(ghosts) {
+		if strings.HasPrefix(k, "$local:") {
+			// a source variable is only known after a join if every path defines it
+			all := true
+			for _, e := range ins {
+				if _, ok := e.st.ghost[k]; !ok {
+					all = false
+				}
+			}
+			if !all {
+				continue
+			}
+		}
 		first := g.ghostTerm(ins[0].st, k)
 		same := true
 		for _, e := range ins[1:] {
